@@ -438,3 +438,49 @@ Definition rfc_resp_args (a : resp_args) : bool :=
   forallb rfc_header (arg_headers (sa_headers a)) && nodup_ci (map fst (arg_headers (sa_headers a))) &&
   rfc_framing_args (arg_headers (sa_headers a)) (sa_body a) (negb (sa_nocl a)) true &&
   (if bodyless_status (Z.to_N (sa_status a)) then negb (truthy (sa_body a)) else true).
+
+(* ------------------------------------------------------------------------------------- *)
+(* decidable form of "this parser state can be re-serialised faithfully" (hypotheses of the
+   rebuild theorems, checked on the parser states of every generated wire message)         *)
+Definition unlift (h : option hdict) : bdict :=
+  match h with Some d => map (fun e => (fst (snd e), snd (snd e))) d | None => [] end.
+Definition hdict_canonical (h : option hdict) : bool :=
+  match h with
+  | None => true
+  | Some [] => false
+  | Some d => forallb (fun e => bytes_eqb (fst e) (lower (fst (snd e)))) d
+  end.
+Definition tokb (l : bytes) : bool := no_sp l && no_cr l.
+Definition framing_consistent_b (strict0 : bool) (p : parser) (hs : bdict) : bool :=
+  match get_ci TRANSFER_ENCODING hs with
+  | Some te => bytes_eqb (lower te) CHUNKED && is_chunked_encoded p && negb (has_key_ci CONTENT_LENGTH hs) &&
+               match body p with Some _ => true | None => false end
+  | None => negb (is_chunked_encoded p) &&
+      match get_ci CONTENT_LENGTH hs with
+      | Some cl => if truthy (body p)
+                   then bytes_eqb cl (dec_of_N (len (or_empty (body p)))) && len_ok (or_empty (body p))
+                   else if strict0 then bytes_eqb cl [48]
+                        else match int10 cl with Ok z => (z =? 0)%Z | Err _ => false end
+      | None => negb (truthy (body p))
+      end
+  end.
+Definition path_ok_b (p : parser) : bool :=
+  negb (truthy (path p)) ||
+  match path p with
+  | Some (x :: t) => (x =? SLASH) && tokb (x :: t) && match t with y :: _ => negb (y =? SLASH) | [] => true end
+  | _ => false
+  end.
+Definition rebuildable_req (p : parser) : bool :=
+  let hs := unlift (headers p) in
+  is_request (ty p) && truthy (method p) && tokb (or_empty (method p)) &&
+  truthy (version p) && no_cr (or_empty (version p)) && path_ok_b p &&
+  hdict_canonical (headers p) && forallb ok_header hs && nodup_ci (map fst hs) &&
+  framing_consistent_b false p hs.
+Definition rebuildable_resp (p : parser) : bool :=
+  let hs := unlift (headers p) in
+  negb (is_request (ty p)) && truthy (code p) &&
+  match int10 (or_empty (code p)) with Ok z => bytes_eqb (dec_of_Z z) (or_empty (code p)) | Err _ => false end &&
+  truthy (version p) && tokb (or_empty (version p)) && no_cr (or_empty (reason p)) &&
+  hdict_canonical (headers p) && forallb ok_header hs && nodup_ci (map fst hs) &&
+  framing_consistent_b true p hs.
+
